@@ -92,7 +92,7 @@ func TestGovcReplay(t *testing.T) {
 					report("%s: PushTask on an idle lane returned %v", name, err)
 				}
 			}
-			if !govcWaitFor(2*time.Second, func() bool {
+			if !govcWaitFor(8*time.Second, func() bool {
 				for _, tk := range tasks {
 					if atomic.LoadInt32(&tk.starts) == 0 {
 						return false
@@ -100,7 +100,7 @@ func TestGovcReplay(t *testing.T) {
 				}
 				return tl.Status().PendingTask == 0
 			}) {
-				report("%s: accepted tasks were not all started within 2s on an idle lane", name)
+				report("%s: accepted tasks were not all started in time on an idle lane", name)
 			}
 			time.Sleep(5 * time.Millisecond)
 			cancel()
@@ -108,8 +108,8 @@ func TestGovcReplay(t *testing.T) {
 			go func() { tl.Wait(); close(waited) }()
 			select {
 			case <-waited:
-			case <-time.After(2 * time.Second):
-				report("%s: Wait did not return within 2s after the context was cancelled on an idle lane", name)
+			case <-time.After(8 * time.Second):
+				report("%s: Wait did not return in time after the context was cancelled on an idle lane", name)
 			}
 			for i, tk := range tasks {
 				if n := atomic.LoadInt32(&tk.starts); n != 1 {
@@ -144,8 +144,8 @@ func TestGovcReplay(t *testing.T) {
 			govcWaitFor(time.Second, func() bool { return atomic.LoadInt32(&blocker.starts) == 1 })
 			short := &govcTask{running: &running, maxRun: &maxRun}
 			tl.PushTask(short, 0)
-			if !govcWaitFor(2*time.Second, func() bool { return atomic.LoadInt32(&short.starts) == 1 }) {
-				report("%s: a task at the head of lane 0 was not started within 2s although lane 0's worker is busy and %d worker(s) are idle", name, lanes-1)
+			if !govcWaitFor(8*time.Second, func() bool { return atomic.LoadInt32(&short.starts) == 1 }) {
+				report("%s: a task at the head of lane 0 was not started in time although lane 0's worker is busy and %d worker(s) are idle", name, lanes-1)
 			}
 			// saturate: many short tasks on all lanes; never more than `lanes` at once
 			var many []*govcTask
@@ -156,7 +156,7 @@ func TestGovcReplay(t *testing.T) {
 				}
 			}
 			close(release)
-			govcWaitFor(3*time.Second, func() bool { return tl.Status().PendingTask == 0 })
+			govcWaitFor(10*time.Second, func() bool { return tl.Status().PendingTask == 0 })
 			time.Sleep(5 * time.Millisecond)
 			if m := atomic.LoadInt32(&maxRun); int(m) > lanes {
 				report("%s: %d tasks were executing at once, more than laneSize", name, m)
@@ -223,7 +223,7 @@ func TestGovcReplay(t *testing.T) {
 					accepted = append(accepted, tk)
 				}
 			}
-			if !govcWaitFor(3*time.Second, func() bool {
+			if !govcWaitFor(10*time.Second, func() bool {
 				for _, tk := range accepted {
 					if atomic.LoadInt32(&tk.starts) == 0 {
 						return false
@@ -231,7 +231,7 @@ func TestGovcReplay(t *testing.T) {
 				}
 				return true
 			}) {
-				report("%s: with panicking tasks in the mix, not every accepted task was started within 3s (a worker died?)", name)
+				report("%s: with panicking tasks in the mix, not every accepted task was started in time (a worker died?)", name)
 			}
 			close(stop)
 			pollers.Wait()
